@@ -178,8 +178,8 @@ def plan(pid, tier, rng, behaviours):
     for b in backends:
         for ks in dd.keysets_for(b):
             for vs in dd.valsets_for(b):
-                if pid != 'C03' and (ks.startswith('alias') or vs == 'srcinf'):
-                    continue          # C03's known findings (key aliasing, unreadable source text) are not persistence matters
+                if pid != 'C03' and (ks.startswith('alias') or vs == 'srcinf' or (ks == 'long' and b.startswith('dir'))):
+                    continue          # C03's known findings (key aliasing, over-long keys, unreadable source text) are not persistence matters
                 combos.append((b, ks, vs))
     jobs = []
     root = common.scratch('dict-replay')
